@@ -544,4 +544,84 @@ theorem finish_run_never_writes_store (fuel : Nat) (e : Engine M) :
 
 end frame
 
+/-! ### PUBLISH in the engine establishes the store invariant
+
+The engine's `_update_all_routes_a_partial_candle` (called before every order execution of both simulators and before
+the forced close of a liquidation) is, on the store of its symbol, REPLACE LAST followed by PUBLISH
+(`StoreFrame.updatePartialCandle_store`).  So, for a symbol with one bigger timeframe `m`: if the store satisfied `PreInv`
+(which NEW MINUTE and REPLACE LAST keep) then after the call it satisfies `StoreInv` — and it still does at every hook
+the execution fires, because no strategy writes the store. -/
+
+section publish
+open Jesse.Eng StoreProto
+variable {M : Type}
+
+theorem publish_establishes_inv (e : Engine M) (sym m : Nat) (c last : Candle) (t0 : Int)
+    (hs : sym < e.stores.length)
+    (htfs : ((e.cfg.routes ++ e.cfg.dataRoutes).filter (fun r => r.sym = sym ∧ r.tf ≠ 1)).map (·.tf) = [m])
+    (hm : 0 < m) (ht0 : 0 < t0) (hal : t0 % ((m : Int) * 60000) = 0)
+    (hsp : Spaced t0 (storeOf e sym).short)
+    (hlast : (storeOf e sym).short.getLast? = some last) (hts : c.ts = last.ts)
+    (hpre : PreInv m (storeOf e sym).short (longOf (storeOf e sym) m)) :
+    StoreInv m (storeOf (updatePartialCandle e sym c) sym).short
+      (longOf (storeOf (updatePartialCandle e sym c) sym) m) := by
+  rw [StoreFrame.updatePartialCandle_store e sym c hs, htfs]
+  simp only [List.foldl_cons, List.foldl_nil]
+  generalize hS : storeOf e sym = S at *
+  have hne : S.short ≠ [] := by intro h; rw [h] at hlast; simp at hlast
+  have hpos : 0 < S.short.length := List.length_pos_iff.mpr hne
+  have hl : last = S.short[S.short.length - 1] := by
+    rw [List.getLast?_eq_getElem?, List.getElem?_eq_getElem (by omega)] at hlast
+    injection hlast with h; exact h.symm
+  have hlts : last.ts = t0 + 60000 * ((S.short.length - 1 : Nat) : Int) := by rw [hl]; exact hsp _ (by omega)
+  have hc0 : ¬ c.ts = 0 := by
+    rw [hts, hlts]; have : (0 : Int) ≤ ((S.short.length - 1 : Nat) : Int) := Int.natCast_nonneg _; omega
+  -- REPLACE LAST
+  have hadd : Store.addCandle S.short c = S.short.dropLast ++ [c] := by
+    unfold Store.addCandle
+    have hl0 : ¬ last.ts = 0 := by rw [← hts]; exact hc0
+    have hngt : ¬ last.ts > last.ts := lt_irrefl _
+    simp only [hts, hl0, if_false, hlast, hngt, if_true]
+  set short' := S.short.dropLast ++ [c] with hshort'
+  have hlen' : short'.length = S.short.length := by simp [hshort']; omega
+  have hne' : short' ≠ [] := by simp [hshort']
+  have hsp' : Spaced t0 short' := by
+    intro j hj
+    by_cases hjl : j < S.short.dropLast.length
+    · have : short'[j] = S.short[j]'(by rw [← hlen']; exact hj) := by
+        simp only [hshort']
+        rw [List.getElem_append_left hjl, List.getElem_dropLast]
+      rw [this]; exact hsp j _
+    · have hj' : j = S.short.length - 1 := by
+        have : S.short.dropLast.length = S.short.length - 1 := by simp
+        rw [hlen'] at hj; omega
+      have : short'[j] = c := by
+        simp only [hshort']
+        rw [List.getElem_append_right (by omega)]
+        simp
+      rw [this, hts, hlts, hj']
+  have hlast' : short'.getLast? = some c := by simp [hshort']
+  have hpre' : PreInv m short' (longOf S m) := pre_of_replace_last m S.short (longOf S m) c last hm hlast hts hpre
+  -- PUBLISH: the rows selected by timestamp are the window of the last stored minute
+  have hrows := needed_rows m short' t0 c hm (le_of_lt ht0) hal hsp' hlast'
+  unfold StoreFrame.pubStep
+  simp only [hadd]
+  rw [hrows]
+  have hdne : short'.drop (k0 m short' * m) ≠ [] := by
+    have := k0_mul_lt m short' hm hne'
+    intro h0
+    have h1 : (short'.drop (k0 m short' * m)).length = 0 := by rw [h0]; rfl
+    rw [List.length_drop] at h1; omega
+  obtain ⟨g, _, hagg, _, _⟩ := aggregate_some _ hdne
+  have hgen : generate m (short'.drop (k0 m short' * m)) = .ok g := by rw [generate_is_aggregate, hagg]
+  rw [hgen]
+  have hlong : longOf (setLong { S with short := short' } m (addCandle (longOf { S with short := short' } m) g)) m
+      = addCandle (longOf S m) g := by
+    simp [longOf, setLong]
+  have hshort : (setLong { S with short := short' } m (addCandle (longOf { S with short := short' } m) g)).short = short' := rfl
+  rw [hlong, hshort]
+  exact inv_of_window_candle m short' (longOf S m) t0 g hm hne' ht0 hsp' hpre' hgen
+
+end publish
+
 end C07
